@@ -56,8 +56,17 @@ def gen_unit(rng):
             # sometimes the previous value again with its members in the opposite order: equal for jawk, different text
             out.append(jm.twin(prev) if prev is not None and rng.random() < 0.2 else eg.gen_input(rng))
         return out
-    A = seq(rng.choice((0, 1, 1, 2, 5, 20)))
-    B = seq(rng.choice((0, 1, 2, 5, 20)), A[-1] if A else None)
+    r = rng.random()
+    if r < 0.01:
+        # long parts (hundreds of records, many empty collections): whatever a reader or stage accumulates per run shows here
+        A = seq(rng.choice((300, 500)))
+        B = seq(rng.choice((300, 500)), A[-1])
+    else:
+        A = seq(rng.choice((0, 1, 1, 2, 5, 20)))
+        B = seq(rng.choice((0, 1, 2, 5, 20)), A[-1] if A else None)
+        if r < 0.03 and B:
+            # one value whose printed row is far above any plausible buffer size, after smaller ones
+            B[rng.randrange(len(B))] = {"id": 4, "s": "y" * 70000, "arr": [1, 2], "n": 1}
     return {"args": args, "A": [jm.dumps(v) for v in A], "B": [jm.dumps(v) for v in B], "headers": ("csv" in out or "--headers" in out),
             "funcs": sorted(g.used)}
 
